@@ -584,3 +584,186 @@ Proof.
     + pose proof (day_loop_le (weekly_day c d) t (dflt c) (dflt c) e0) as Hl. rewrite Hdl in Hl.
       eapply t4_le_trans; eauto.
 Qed.
+
+(* ---- the timer: every firing re-arms, strictly ahead, at the latest at the next midnight *)
+Definition arm_ok (n : T4) : Prop := n = next_day \/ (valid_time n /\ let '(_, _, _, h) := n in h = 0).
+Definition good_tvs (l : list TV) : Prop := Forall (fun tv => valid_time (fst tv) /\ whole_tv tv) l.
+
+Lemma arm_ok_min : forall a b, arm_ok a -> arm_ok b -> arm_ok (t4_min a b).
+Proof. intros a b Ha Hb. unfold t4_min. destruct (t4_lt b a); assumption. Qed.
+
+Lemma tv_slot_arm : forall tvs t x q, good_tvs tvs -> snd (tv_slot tvs t x) = Some q -> arm_ok q \/ snd x = Some q.
+Proof.
+  induction tvs as [|[tv v] r IH]; intros t x q Hg H; cbn [tv_slot] in *; auto.
+  inversion Hg as [|? ? [Hv Hw] Hg']; subst. destruct (t4_le tv t).
+  - apply IH in H; auto. destruct H as [H | H]; auto. left.
+    destruct v; cbn in H; try discriminate. inversion H. now left.
+  - cbn in H. inversion H; subst. left. right. split; auto.
+Qed.
+
+Lemma scan_arm : forall s e0, arm_ok e0 -> (forall sl q, In sl s -> snd sl = Some q -> arm_ok q) -> arm_ok (snd (scan s e0)).
+Proof.
+  induction s as [|[v0 n0] r IH]; intros e0 H0 Hs; cbn [scan]; auto.
+  assert (He1 : arm_ok (match n0 with Some x => t4_min e0 x | None => e0 end)).
+  { destruct n0 as [x|]; auto. apply arm_ok_min; auto. apply (Hs (v0, Some x)); [now left | reflexivity]. }
+  destruct v0; auto. apply IH; auto. intros sl q Hin. apply Hs. now right.
+Qed.
+
+Lemma day_loop_arm : forall tvs t dv df e, good_tvs tvs -> arm_ok e -> arm_ok (snd (day_loop tvs t dv df e)).
+Proof.
+  induction tvs as [|[tv x] r IH]; intros t dv df e Hg He; cbn [day_loop]; auto.
+  inversion Hg as [|? ? [Hv Hw] Hg']; subst. destruct (t4_le tv t); auto.
+  cbn [snd]. apply arm_ok_min; auto. right. split; auto.
+Qed.
+
+Definition good_sched (c : sched) : Prop :=
+  (forall e, In e (excs c) -> good_tvs (se_tvs e)) /\
+  (forall w, weekly c = Some w -> forall day, In day w -> good_tvs day).
+
+Lemma weekly_day_good : forall c d, good_sched c -> good_tvs (weekly_day c d).
+Proof.
+  intros c [[[y m] dd] dow] [_ Hg]. unfold weekly_day. destruct (weekly c) as [w|] eqn:E; [|constructor].
+  destruct (nth_in_or_default (Z.to_nat (dow - 1)) w []) as [Hin | Hdef].
+  - now apply (Hg w eq_refl).
+  - rewrite Hdef. constructor.
+Qed.
+
+Lemma eval_arm : forall c d t v n, valid_date d -> wf_sched c d -> good_sched c ->
+  eval c d t = Ok (Some (v, n)) -> arm_ok n.
+Proof.
+  intros c d t v n Hd Hwf Hg H. rewrite (eval_shape c d t Hd Hwf) in H.
+  destruct (match match_date_range d (eff c) with Ok true => true | _ => false end); [|discriminate].
+  pose proof Hwf as (Hr & Hev & Hdp & Hw).
+  pose proof (active_nodup d (excs c) Hd Hev Hdp) as Hnd.
+  assert (Hall : forall x, In x (excs c) -> wf_event x) by now apply Forall_forall.
+  assert (Hinit : forall x, In x (active d (excs c)) -> nth_error empty_slots (idx x) = Some (None, None)).
+  { intros x Hx. apply nth_error_empty_slots. apply idx_lt. apply Hall. now apply active_in in Hx. }
+  assert (Hslots : forall sl q, In sl (final_slots c d t) -> snd sl = Some q -> arm_ok q).
+  { intros sl q Hin Hq. apply In_nth_error in Hin. destruct Hin as [j Hj]. unfold final_slots in Hj.
+    rewrite (fold_char t _ empty_slots Hinit Hnd) in Hj.
+    destruct (find_idx j (active d (excs c))) as [e|] eqn:F.
+    - inversion Hj; subst sl. apply find_some in F. destruct F as [Hin _]. apply active_in in Hin.
+      destruct (tv_slot_arm _ _ _ _ (proj1 Hg e (proj1 Hin)) Hq) as [H1 | H1]; auto. discriminate.
+    - destruct (Nat.lt_ge_cases j 16) as [Hlt | Hge].
+      + rewrite nth_error_empty_slots in Hj by assumption. inversion Hj; subst sl. discriminate.
+      + assert (Hn : (length empty_slots <= j)%nat) by (cbn; lia). apply nth_error_None in Hn.
+        pose proof (eq_trans (eq_sym Hn) Hj) as Hc. discriminate Hc. }
+  pose proof (scan_arm (final_slots c d t) next_day (or_introl eq_refl) Hslots) as Hsa.
+  destruct (scan (final_slots c d t) next_day) as [[v0|] e0]; cbn [snd] in *.
+  - inversion H; subst. auto.
+  - inversion H as [Hdl].
+    pose proof (day_loop_arm (weekly_day c d) t (dflt c) (dflt c) e0 (weekly_day_good c d Hg) Hsa) as Ha.
+    now rewrite Hdl in Ha.
+Qed.
+
+Lemma normalise_arm : forall d n, arm_ok n ->
+  has255 n = false /\ ((n = next_day /\ normalise d n = (next_date d, (0, 0, 0, 0))) \/ (n <> next_day /\ normalise d n = (d, n))).
+Proof.
+  intros d n [H | [Hv Hw]].
+  - subst n. split; [reflexivity|]. left. split; reflexivity.
+  - destruct n as [[[h m] s] x]. subst x. unfold valid_time in Hv.
+    split; [unfold has255; lia|]. right. split; [unfold next_day; intro E; inversion E; lia|].
+    unfold normalise.
+    replace ((h * 3600 + m * 60 + s) / 86400) with 0 by lia.
+    replace ((h * 3600 + m * 60 + s) mod 86400) with (h * 3600 + m * 60 + s) by lia.
+    cbn [Z.to_nat nth_date]. repeat f_equal; lia.
+Qed.
+
+Lemma classic_in_effect : forall c d, valid_date d -> wf_sched c d -> in_effect c d \/ ~ in_effect c d.
+Proof.
+  intros c d Hd (Hr & _). destruct (in_effect_match c d Hd Hr) as (b & _ & Hbd).
+  destruct b; [left; now apply Hbd | right; intro H; apply Hbd in H; discriminate].
+Qed.
+
+Theorem step_rearms : forall c d t pv, valid_date d -> valid_time t -> wf_sched c d -> good_sched c ->
+  exists pv' d' t', step c d t pv = Ok (pv', (d', t')) /\
+    ((d' = d /\ t4_lt t t' = true /\ valid_time t') \/ (d' = next_date d /\ t' = (0, 0, 0, 0))) /\
+    (in_effect c d -> spec_value c d t pv') /\ (~ in_effect c d -> pv' = pv).
+Proof.
+  intros c d t pv Hd Ht Hwf Hg. unfold step.
+  destruct (eval_total c d t Hd Hwf) as [Hin Hout].
+  destruct (eval c d t) as [[[v n]|]|err] eqn:E.
+  - cbn [bind].
+    pose proof (eval_arm c d t v n Hd Hwf Hg E) as Harm.
+    destruct (eval_next_ahead c d t v n Hd Hwf Ht E) as [Hahead _].
+    destruct (eval_spec c d t v n Hd Hwf E) as [Heff Hspec].
+    destruct (normalise_arm d n Harm) as [H255 [[Hn Hnorm] | [Hn Hnorm]]]; rewrite H255, Hnorm.
+    + exists v, (next_date d), (0, 0, 0, 0). repeat split; auto. intro Hc. contradiction.
+    + exists v, d, n. repeat split; auto.
+      * left. repeat split; auto. destruct Harm as [Hc | [Hv _]]; [contradiction | exact Hv].
+      * intro Hc. contradiction.
+  - cbn [bind]. exists pv, (next_date d), (0, 0, 0, 0). repeat split; auto.
+    intro Hc. destruct (Hin Hc) as (v & n & Hc'). discriminate.
+  - exfalso. destruct (classic_in_effect c d Hd Hwf) as [Hc | Hc].
+    + destruct (Hin Hc) as (v & n & Hc'). discriminate.
+    + specialize (Hout Hc). discriminate.
+Qed.
+
+Theorem run_across_days : forall fuel c d t pv,
+  (forall k, (k <= fuel)%nat -> valid_date (nth_date k d) /\ wf_sched c (nth_date k d)) ->
+  valid_time t -> good_sched c ->
+  length (run fuel c d t pv) = fuel /\ Forall (fun r => exists x, r = Ok x) (run fuel c d t pv).
+Proof.
+  induction fuel as [|k IH]; intros c d t pv H Ht Hg; cbn [run]; [split; [reflexivity | constructor]|].
+  destruct (H 0%nat (Nat.le_0_l _)) as [Hd Hwf]. cbn [nth_date] in Hd, Hwf.
+  destruct (step_rearms c d t pv Hd Ht Hwf Hg) as (pv' & d' & t' & Hstep & Hcase & _). rewrite Hstep.
+  assert (Hnext : forall j, (j <= k)%nat -> valid_date (nth_date j d') /\ wf_sched c (nth_date j d')).
+  { intros j Hj. destruct Hcase as [(-> & _) | (-> & _)].
+    - apply H. lia.
+    - apply (H (S j)). lia. }
+  assert (Ht' : valid_time t').
+  { destruct Hcase as [(_ & _ & Hv) | (_ & ->)]; [exact Hv | unfold valid_time; lia]. }
+  destruct (IH c d' t' pv' Hnext Ht' Hg) as [Hlen Hall].
+  split; [cbn [length]; now rewrite Hlen | constructor; eauto].
+Qed.
+
+(* ---- equal priorities: the faithful model changes value before the transition it reported *)
+Definition eq_prio_sched : sched :=
+  Build_sched ((255, 255, 255, 255), (255, 255, 255, 255)) None
+    [Build_sevent (PEntry (CDate (255, 255, 255, 255))) (Some 5) [((9, 0, 0, 0), Some 4)];
+     Build_sevent (PEntry (CDate (255, 255, 255, 255))) (Some 5) [((10, 0, 0, 0), Some 1)]] 0.
+
+Lemma stable_refuted : exists c d t t' v n,
+  valid_date d /\ eval c d t = Ok (Some (v, n)) /\ t4_le t t' = true /\ t4_lt t' n = true /\
+  forall n', eval c d t' <> Ok (Some (v, n')).
+Proof.
+  exists eq_prio_sched, (120, 1, 1, 3), (8, 30, 0, 0), (9, 0, 0, 0), 0, (10, 0, 0, 0).
+  split; [apply valid_dateb_spec; vm_compute; reflexivity|].
+  split; [vm_compute; reflexivity|]. split; [reflexivity|]. split; [reflexivity|].
+  intros n' H. vm_compute in H. discriminate H.
+Qed.
+
+(* ---- a concrete well-formed schedule (non-vacuity of the hypotheses) *)
+Definition ex_sched : sched :=
+  Build_sched ((120, 1, 1, 255), (255, 255, 255, 255))
+    (Some [[((8, 0, 0, 0), Some 3); ((17, 0, 0, 0), None)]; []; []; []; []; []; []])
+    [Build_sevent (PEntry (CWnd (255, 6, 1))) (Some 2) [((7, 0, 0, 0), Some 7); ((12, 0, 0, 0), None)];
+     Build_sevent (PRef (Some [CDate (255, 13, 32, 255); CRange ((120, 1, 1, 255), (120, 1, 31, 255))])) (Some 9)
+                  [((0, 0, 0, 0), Some 5)]] 1.
+
+Lemma ex_sched_wf : forall d, wf_sched ex_sched d.
+Proof.
+  intro d. unfold wf_sched, ex_sched. cbn [eff excs weekly].
+  split; [|split; [|split]].
+  - split; cbn; [right | left]; lia.
+  - constructor; [|constructor; [|constructor]]; unfold wf_event; cbn [se_period se_prio se_tvs]; (split; [|split]).
+    + cbn. lia.
+    + exists 2. split; [reflexivity | lia].
+    + cbn. split; [intros x [<- | []]; reflexivity | split; [intros x [] | exact I]].
+    + intros c [<- | [<- | []]]; cbn; auto. split; cbn; right; lia.
+    + exists 9. split; [reflexivity | lia].
+    + cbn. split; [intros x [] | exact I].
+  - cbn. repeat split; auto. intros _ e' [<- | []] _. cbn. lia.
+  - split; [reflexivity|]. intros day [<- | Hin].
+    + cbn. repeat split; auto. intros ? [<- | []]. reflexivity.
+    + repeat (destruct Hin as [<- | Hin]; [exact I|]). destruct Hin.
+Qed.
+
+Lemma ex_sched_good : good_sched ex_sched.
+Proof.
+  split.
+  - intros e [<- | [<- | []]]; repeat constructor; cbn; lia.
+  - intros w Hw. inversion Hw; subst. intros day [<- | Hin].
+    + repeat constructor; cbn; lia.
+    + repeat (destruct Hin as [<- | Hin]; [constructor|]). destruct Hin.
+Qed.
